@@ -315,6 +315,7 @@ def run_sequence(elfi, variant, ops, check_independence=True, tmp=None):
 def replay_input(inp):
     """True iff the property HOLDS on this input"""
     elfi = native.import_elfi()
+    inp = inp.get('input', inp)         # a bounded failure record wraps the input
     r = run_sequence(elfi, inp['variant'], [tuple(o) for o in inp['ops']], inp.get('check_independence', True))
     return r['signature'] is None
 
